@@ -156,7 +156,7 @@ def parse_drv(txt):
             continue
         if t[0] == 'I':
             cur = int(t[1])
-            res[cur] = {'m': {}, 's': {}, 'd': {}, 'k': {}, 'g': {}, 'i': {}, 't': {}, 'q': {}}
+            res[cur] = {'m': {}, 's': {}, 'd': {}, 'k': {}, 'g': {}, 'i': {}, 't': {}, 'q': {}, 'j': {}}
         elif cur is None:
             continue
         elif t[0] == 'm':
@@ -167,6 +167,9 @@ def parse_drv(txt):
                 ip, ib, ia, iu = t.index('P'), t.index('B'), t.index('A'), t.index('U')
                 res[cur]['m'][k] = {'status': 'ok', 'tie': t[3] == 'T1', 'wf': t[4] != 'W0', 'x': [parse_hexq(x) for x in t[ip + 1:ib]],
                                     'B': [int(b) for b in t[ib + 1:ia]], 'A': t[ia + 1], 'U': t[iu + 1]}
+        elif t[0] == 'j':
+            # invariants of Vpsc/StaticInvB.v on every state of the static model's merge pass
+            res[cur]['j'][int(t[1])] = {'dag': t[2] == '1', 'mask': int(t[3]), 'states': int(t[4]), 'allsat': t[5] == '1', 'same': t[6] == '1'}
         elif t[0] == 't':
             # the static Solver model (Vpsc/StaticModel.v) on a static instance
             k = int(t[1])
@@ -460,6 +463,15 @@ def eval_corr_static(ins, reals, drv, postol=Fr(1, 10 ** 9)):
     between keys closer than 1e-7 (tie flag) are counted separately."""
     d = drv or {}
     ts = d.get('t') or {}
+    for k, jv in sorted((d.get('j') or {}).items()):
+        # bits 1 (heap_ok), 2 (act_inv) hold on every multigraph; 4 (prefix sat), 8 (monotone), 16 (root is the minimum),
+        # 32 (violated in-constraints are in the heap) and exact satisfaction at the end are claims about DAGs
+        bad = (jv['mask'] & 3) or (not jv['same']) or (jv['dag'] and (jv['mask'] or not jv['allsat']))
+        if bad:
+            return 'diff', {'op_index': k, 'what': 'a state the STATIC MODEL visits in the merge pass of satisfy() violates an invariant of Vpsc/StaticInvB.v '
+                            '(mask: 1 heap_ok, 2 act_inv, 4 prefix sat, 8 monotone, 16 root is the minimum, 32 violated in-constraints in heap; '
+                            'allsat = every slack >= 0 exactly after the pass; same = checked runner computes what merge_pass computes)',
+                            'dag': jv['dag'], 'mask': jv['mask'], 'allsat': jv['allsat'], 'same': jv['same'], 'states_checked': jv['states']}
     for r in reals:
         k = r['op']
         m = ts.get(k)
